@@ -32,7 +32,7 @@ class Measure(Part):
 
         # overflow="ignore" is an explicit request to exceed the width (not generated for texts either in this mode)
         extra = st.one_of(C14.pretty_leaf(allow_ignore=False), C14.syntax_leaf(), C14.other_leaves("spinner"))
-        return st.builds(lambda t, a: {"tree": t, "A": a}, st.one_of(GT.node(0, "free"), GT.node(0, "free"), GT.node(0, "free", extra=extra), extra), a)
+        return st.builds(lambda t, a, e: {"tree": t, "A": a, "enc": e}, st.one_of(GT.node(0, "free"), GT.node(0, "free"), GT.node(0, "free", extra=extra), extra), a, st.sampled_from(C01.ENCODINGS))
 
     def check(self, spec, ctx):
         from rich.console import Console
@@ -44,7 +44,10 @@ class Measure(Part):
         if isinstance(A, list):
             A = max(0, smin + A[1])
         r = sut(GT.build, tree)
-        con = sut(Console, file=io.StringIO(), width=200, height=25, color_system="truecolor", force_terminal=True, legacy_windows=False, _environ={})
+        enc = spec.get("enc")
+        con = sut(Console, file=C01.EncFile(enc) if enc else io.StringIO(), width=200, height=25, color_system="truecolor", force_terminal=True, legacy_windows=False, _environ={})
+        if enc:
+            ctx.cls("encoding-" + enc)
         m = sut(Measurement.get, con, r, A)
         lo, hi = m.minimum, m.maximum
         if not (0 <= lo <= hi <= A):
@@ -54,7 +57,7 @@ class Measure(Part):
         for label, v in (("maximum", hi), ("minimum", lo)):
             if v >= max(1, smin):
                 r2 = sut(GT.build, tree)
-                _, lines = C01.render_lines(r2, v)
+                _, lines = C01.render_lines(r2, v, encoding=enc)
                 for i, ln in enumerate(lines):
                     w = OC.width(ln)
                     if w > v:
